@@ -86,6 +86,9 @@ ELEMENT_OF = {
     "core::slice::iter_mut", "core::slice::get_mut", "core::slice::first", "core::slice::last",
     "std::iter::IntoIterator::into_iter", "std::iter::Iterator::next",
     "std::iter::Iterator::cloned", "std::iter::Iterator::rev",
+    "std::ops::Index::index", "std::ops::IndexMut::index_mut",
+    "std::collections::VecDeque::get_mut", "std::collections::VecDeque::front_mut", "std::collections::VecDeque::back",
+    "std::collections::HashMap::values", "std::collections::HashMap::values_mut",
 }
 
 
